@@ -346,6 +346,26 @@ func idOf(t vocab.Type) string {
 
 // otherCallbacks builds recording 'other' callbacks for the given type keys.
 func (w *World) otherCallbacks(proto string, keys []string) []interface{} {
+	if w.SharedOther {
+		// one long-lived slice per protocol, built by append (so with spare
+		// capacity), handed to every request: the interface does not ask
+		// for a fresh one
+		w.otherMu.Lock()
+		defer w.otherMu.Unlock()
+		if s, ok := w.otherShared[proto]; ok {
+			return s
+		}
+		if w.otherShared == nil {
+			w.otherShared = map[string][]interface{}{}
+		}
+		s := append(make([]interface{}, 0, len(keys)+32), w.buildOtherCallbacks(proto, keys)...)
+		w.otherShared[proto] = s
+		return s
+	}
+	return w.buildOtherCallbacks(proto, keys)
+}
+
+func (w *World) buildOtherCallbacks(proto string, keys []string) []interface{} {
 	var out []interface{}
 	ctxT := reflect.TypeOf((*context.Context)(nil)).Elem()
 	errT := reflect.TypeOf((*error)(nil)).Elem()
